@@ -34,7 +34,9 @@ impl IoDriver {
     }
 
     pub(crate) async fn open(&self, path: impl AsRef<Path>) -> IOResult<File> {
-        File::from_file(path, |f| f.create(false).append(true).read(true)).await
+        // Not `append(true)`: on Linux a positional write to a file opened with O_APPEND ignores its offset
+        // and goes to the current end of file, while records are addressed by the offset reserved in `size`
+        File::from_file(path, |f| f.create(false).write(true).read(true)).await
     }
 
     pub(crate) async fn create(&self, path: impl AsRef<Path>) -> IOResult<File> {
